@@ -25,6 +25,9 @@ EXPRS = {
     "outer": (("m", "n"), [("m",), ("n",)]),
     "elem3": (("m",), [("m",), ("m",), ("m",)]),
     "matmul-scale": (("m", "n"), [("m", "k"), ("k", "n"), ("n",)]),
+    # 3-rank operands (a tiling of two of their ranks splits at fibertree depth >= 2)
+    "sum3": (("m", "k"), [("m", "k", "n")]),
+    "ttv": (("m", "k"), [("m", "k", "n"), ("n",)]),
 }
 NAMES = "ABCD"
 
